@@ -66,7 +66,7 @@ IMP_SMD = ['Coq.Lists.List', 'Coq.NArith.NArith', 'Coq.Arith.PeanoNat', 'Coq.Boo
 IMP_IMG = ['Coq.Lists.List', 'Coq.NArith.NArith', 'Coq.Bool.Bool', 'SV.Fmt.ScenesImage']
 IMP_TXT = ['Coq.Lists.List', 'Coq.NArith.NArith', 'Coq.Bool.Bool', 'SV.Fmt.SndStacks', 'SV.Fmt.VmtQuote', 'SV.Fmt.TextLines', 'SV.Fmt.TextFields', 'SV.Gen.TextFields_gen']
 IMP_CB = ['Coq.Lists.List', 'Coq.NArith.NArith', 'Coq.Bool.Bool', 'Coq.Arith.PeanoNat', 'SV.Fmt.ChoreoBin', 'SV.Gen.ChoreoBin_gen']
-IMP_KT = ['Coq.Lists.List', 'Coq.Strings.String', 'Coq.Bool.Bool', 'Coq.Arith.PeanoNat', 'SV.Fmt.BspDedup', 'SV.Fmt.C20KeyTables', 'SV.Gen.KeyTables_gen']
+IMP_KT = ['SV.Gen.KeyTables_gen']
 IMP_IMGCFG = ['Coq.Lists.List', 'Coq.NArith.NArith', 'Coq.Bool.Bool', 'SV.Fmt.ScenesImage', 'SV.Fmt.ScenesImageCfg', 'SV.Gen.ScenesImg_gen']
 
 PRE = '''Import ListNotations. Open Scope N_scope.
@@ -1278,18 +1278,18 @@ def key_table_obligations(side: dict) -> dict[str, str]:
     failing one escalates the search of that format only), plus the reader keys the representable alphabets rely on."""
     import re as _re
     obs: dict[str, str] = {}
+    defs = side.get('obligation_defs', {})
     for t in side.get('tables', {}):
         nm = _re.sub(r'[^A-Za-z0-9]+', '_', t.split('.', 1)[1]).strip('_')
-        obs[f'{kt_prefix(t)}table_{nm}_keeps_apart_whatever_the_reader_keeps_apart'] = f'dedup_ok_named kt_tables "{t}"%string'
+        obs[f'{kt_prefix(t)}table_{nm}_keeps_apart_whatever_the_reader_keeps_apart'] = defs[f'table:{t}']
     for c in side.get('classes', {}):
         nm = _re.sub(r'[^A-Za-z0-9]+', '_', c.split('.', 1)[1]).strip('_')
-        obs[f'{kt_prefix(c)}class_{nm}_eq_ne_hash_agree_and_do_not_normalise_what_they_compare'] = f'class_ok_named kt_classes "{c}"%string'
-    obs['smd_bone_tables_present_in_the_census'] = ('andb (has_table kt_tables "smd.Mesh.export:bone_indexes"%string) '
-                                                    '(has_class kt_classes "smd.Bone"%string)')
-    obs['smd_reader_keys_bones_by_the_exact_name'] = 'reader_key_is kt_reader_keys "smd.Mesh.parse_smd"%string key_name_exact'
-    obs['cmdseq_reader_keys_sequences_by_the_exact_name'] = 'reader_key_is kt_reader_keys "cmdseq.parse"%string key_value_exact'
-    obs['image_string_pool_table_present_and_lookups_normalise_like_stores'] = (
-        'andb (has_table kt_tables "choreo.save_scenes_image_sync:add_to_pool"%string) (no_strings kt_mixed)')
+        obs[f'{kt_prefix(c)}class_{nm}_eq_ne_hash_agree_with_each_other'] = defs[f'class:{c}']
+    obs['smd_bone_tables_present_in_the_census'] = 'kt_ok_bone_tables_present'
+    obs['smd_bones_compared_by_exactly_the_name_so_copies_of_a_bone_are_that_bone'] = 'kt_ok_bone_eq_is_name'
+    obs['smd_reader_keys_bones_by_the_exact_name'] = 'kt_ok_smd_reader_key'
+    obs['cmdseq_reader_keys_sequences_by_the_exact_name'] = 'kt_ok_cmdseq_reader_key'
+    obs['image_string_pool_table_present_and_lookups_normalise_like_stores'] = 'kt_ok_pool_table_present'
     return obs
 
 
@@ -1743,12 +1743,13 @@ def run(ck: Ck) -> None:
             'cb_nl_eqb cb_kinds_w cb_kinds_r && existsb (N.eqb cb_type_gesture) cb_kinds_r && existsb (N.eqb cb_type_loop) cb_kinds_r '
             '&& existsb (N.eqb cb_type_speak) cb_kinds_r && negb (N.eqb cb_type_gesture cb_type_loop) && negb (N.eqb cb_type_loop cb_type_speak) '
             '&& negb (N.eqb cb_type_gesture cb_type_speak)')
+    if built and ok6:
+        # the booleans are defined in the Gen file: no string literal (and no import of Coq.Strings.String, which shadows `length`) here
+        m_imps += IMP_KT
+        m_what.append('the keyed tables of the writers (dict / set / find_or_insert keys incl. __eq__ / __hash__ of the key class)')
+        m_obs.update(key_table_obligations(ck.extra.get('translated', {}).get('KeyTables_gen', {})))
     if m_obs:
         tie(ck.instance_obligations(list(dict.fromkeys(m_imps)), m_obs, name='tpl'), ' / '.join(m_what))
-    if built and ok6:
-        # own group: Coq.Strings.String shadows `length` of the other censuses
-        tie(ck.instance_obligations(IMP_KT, key_table_obligations(ck.extra.get('translated', {}).get('KeyTables_gen', {})), name='keys'),
-            'the keyed tables of the writers (dict / set / find_or_insert keys incl. __eq__ / __hash__ of the key class)')
     lap('instance-smd+text+choreo-bin')
     if built and ok4:
         launch(corr_snd_stacks(ck))
